@@ -8,10 +8,7 @@
              Resource.SetAnnotations (sorted, string-typed); the label maps the property talks about
              (metadata, selector, pod template) are compared with their key order. *)
 From KV Require Export Res.Labels.
-From KV Require Import Gen.FieldSpecs.
-
-Definition default_tc : tconfig :=
-  mkTc gen_common_labels_fs [] gen_template_labels_fs gen_common_annotations_fs.
+From KV Require Export Res.LabelsDefaults.
 
 Inductive case08 :=
 | CFilter (labels : pairs) (fss : list fieldspec) (doc : node) (cls : oclass) (after : node)
